@@ -108,6 +108,26 @@ def predicate(c):
         if ks[0] != "kafka" or any(k != "ok" for k in ks[1:]) or any(x != "0" for _, x in r):
             bad.append((KEY_CROSS, "after a produce error the following heartbeats must each read their own frame: " + c["go"]))
         return bad
+    if "readcut" in f:
+        # C17 x short-buffer reads: the response is cut while / before / after a value longer than
+        # the caller's buffer is received: the call must report the truncation (an error other
+        # than io.ErrShortBuffer, which means "retry with a bigger buffer"), the Conn must be
+        # closed by the library and the next operation must fail
+        ks = [kind(x) for x, _ in r]
+        rel = f.get("cutrel")
+        k = c["args"].split(" ")[3]
+        if ks[0] in ("ok", "kafka", "shortbuf") or r[0][1] != "1":
+            key = ("C17-short-buffer-error-hides-cut-inside-value" if rel == "inside" else
+                   "C17-short-buffer-error-hides-later-cut" if rel == "after" else "C17-short-buffer-read-cut-not-reported")
+            bad.append((key, f"{op} msgset={f.get('msgset')} cap={f.get('cap')}: response cut at byte {k} ({rel} the oversized value "
+                             f"[{f.get('vs')},{f.get('ve')})): the call returned {r[0][0][:60]} and the Conn was "
+                             + ("kept" if r[0][1] != "1" else "closed")))
+        elif len(ks) > 1 and ks[1] in ("ok", "kafka", "shortbuf"):
+            bad.append(("C17-conn-used-after-cut", f"{op}: response cut at byte {k}: the next operation returned {r[1][0][:40]}"))
+        for kk in ks:
+            if kk in ("hang", "panic"):
+                bad.append(("C17-panic-or-hang", "operation outcome " + kk))
+        return bad
     if "reads" in f:
         # Batch.Read / Conn.Read / Conn.ReadMessage, Close, then further operations: Close after
         # io.ErrShortBuffer keeps the Conn, the reader sits at the next frame boundary (the next
@@ -383,11 +403,11 @@ def evaluate(cases, res, want):
     ev, dn, hist = L.coverage_counts(sel, trivial_feats=("",))
     # non-trivial: an error code other than 0, or a cut
     dn = len({c["line"] for c in sel if ("cut" in feats_of(c)) or ("drain" in feats_of(c) and not c["args"].endswith(" -"))
-              or feats_of(c).get("code", "0") not in ("0", True) or "cross" in feats_of(c) or "framing" in feats_of(c) or "nego" in feats_of(c) or "reads" in feats_of(c)})
+              or feats_of(c).get("code", "0") not in ("0", True) or "cross" in feats_of(c) or "framing" in feats_of(c) or "nego" in feats_of(c) or "reads" in feats_of(c) or "readcut" in feats_of(c)})
     hist = {}
     for c in sel:
         f = feats_of(c)
-        for k in ("op", "field", "code", "cutpos", "msgset", "kind", "cap", "list"):
+        for k in ("op", "field", "code", "cutpos", "msgset", "kind", "cap", "list", "cutrel"):
             if k in f:
                 hist[f"{k}={f[k]}"] = hist.get(f"{k}={f[k]}", 0) + 1
     return dict(evaluations=ev, distinct_nontrivial=dn, hist=hist, failures=failures, notes=notes, sel=sel)
@@ -412,7 +432,9 @@ RULE = ("PART A (exhaustive, no randomness in the structure): every (operation, 
         "entries; error code {35,1,-1} with empty / non-empty list then a second negotiating operation; explicit ApiVersions; cut; "
         "3 operations per case, compared with conn_nop.  PART F: fetch v2/v5/v10 over magic-0/1/2 sets, Batch.Read with a buffer of "
         "0 / 1 / len-1 / len / len+3 bytes at the first / middle / last message (earlier ones read by ReadMessage or Read), Close, then "
-        "heartbeat + list-offsets or the documented retry + heartbeat; Conn.Read, Conn.ReadMessage.")
+        "heartbeat + list-offsets or the documented retry + heartbeat; Conn.Read, Conn.ReadMessage.  PART G: Batch.Read / Conn.Read with a "
+        "buffer of 0 / 1 / 19 bytes on a 20-byte value (magic 0/1/2, fetch v2/v10) x every cut position inside the value, three before "
+        "and three after it, then Close and a heartbeat: the truncation must be reported (not io.ErrShortBuffer) and the Conn closed.")
 
 
 def correspondence(ctx):
@@ -435,7 +457,7 @@ def correspondence(ctx):
 def conn_cut_cases(ctx):
     """The truncation cases only (Conn half of C17), same dict shape as correspondence()."""
     cases, res = run_cases(ctx)
-    ev = evaluate(cases, res, lambda f: "cut" in f or "drain" in f)
+    ev = evaluate(cases, res, lambda f: "cut" in f or "drain" in f or "readcut" in f)
     sel = ev["sel"]
     samples = [c["line"][:260] + " | " + c["go"][:120] + " | " + c["feats"] for c in (sel[:2] + sel[len(sel)//2:len(sel)//2+2] + sel[-2:])]
     return dict(evaluations=ev["evaluations"], distinct_nontrivial=ev["distinct_nontrivial"], hist=ev["hist"],
